@@ -1,0 +1,17 @@
+//go:build verif
+
+package executor
+
+import (
+	ds "github.com/ipfs/go-datastore"
+)
+
+// NewKVExecutorWithDB builds a KVExecutor on a caller-supplied datastore
+// (verification hook: the public constructor opens an on-disk badger that can
+// never be closed, so reopen and crash scenarios are otherwise impossible).
+func NewKVExecutorWithDB(db ds.Batching) *KVExecutor {
+	return &KVExecutor{
+		db:     db,
+		txChan: make(chan []byte, txChannelBufferSize),
+	}
+}
